@@ -38,6 +38,8 @@ fn bounds(variants: usize, a1: usize, a: usize, r: usize, shapes: Vec<Shape>) ->
         adds_first: a1,
         adds_later: a,
         removals: r,
+        adds_by_level: None,
+        removals_by_level: None,
         shapes,
         strategies: vec![0, 1, 2, 3],
         ghosts: false,
@@ -48,7 +50,25 @@ fn bounds(variants: usize, a1: usize, a: usize, r: usize, shapes: Vec<Shape>) ->
     }
 }
 
+/// Narrow and deep: few shapes, many additions in the first variant, then two and one.
+fn narrow(adds: Vec<usize>, rems: Vec<usize>, shapes: Vec<Shape>) -> Bounds {
+    let mut b = bounds(adds.len(), adds[0], 1, 1, shapes);
+    b.adds_by_level = Some(adds);
+    b.removals_by_level = Some(rems);
+    b
+}
+
 fn passes(prop: &str, tier: Tier) -> Vec<Bounds> {
+    // experiment hook: VERIF_HIST_BOUNDS="V,A1,A,R,8|14" replaces the passes by one
+    if let Ok(spec) = std::env::var("VERIF_HIST_BOUNDS") {
+        let f: Vec<&str> = spec.split(',').collect();
+        if f.len() == 5 {
+            let n = |i: usize| f[i].parse::<usize>().unwrap_or(1);
+            let mut b = bounds(n(0), n(1), n(2), n(3), if f[4] == "14" { shapes14() } else { shapes8() });
+            b.prop = if prop == "C12L" { "C12".to_owned() } else { prop.to_owned() };
+            return vec![b];
+        }
+    }
     let mut v = passes_inner(prop, tier);
     for b in &mut v {
         b.prop = if prop == "C12L" { "C12".to_owned() } else { prop.to_owned() };
@@ -66,6 +86,9 @@ fn passes_inner(prop: &str, tier: Tier) -> Vec<Bounds> {
                 let mut g = bounds(4, 2, 1, 1, vec![S(1, 1), S(4, 4), S(0, 1), S(3, 1)]);
                 g.ghosts = true;
                 v.push(g);
+                // narrow and deep: long first variants (wide gaps with misaligned starts), two
+                // removals and two additions in the second step, one more step
+                v.push(narrow(vec![5, 2, 1], vec![0, 2, 1], vec![S(1, 1), S(4, 4), S(12, 4)]));
                 v
             } else {
                 // ordered by cost; the generated-text oracles run on the first three (gen_text())
@@ -79,6 +102,8 @@ fn passes_inner(prop: &str, tier: Tier) -> Vec<Bounds> {
                     bounds(2, 4, 3, 2, shapes8()),
                     bounds(3, 2, 2, 1, shapes14()),
                     bounds(3, 3, 2, 2, shapes8()),
+                    narrow(vec![5, 2, 1], vec![0, 2, 1], vec![S(1, 1), S(4, 4), S(12, 4)]),
+                    narrow(vec![6, 2, 2], vec![0, 3, 1], vec![S(1, 1), S(4, 4), S(12, 4), S(2, 2)]),
                 ]
                 .into_iter()
                 .enumerate()
@@ -256,7 +281,9 @@ fn main() {
     // every violation is replayed once more from its recorded history before it is reported; a
     // replay that does not reproduce the key is a machinery error, never a verdict
     for v in run.violations.clone() {
-        if v.case["steps"].as_array().map_or(false, |a| !a.is_empty()) {
+        // (not for C19: a difference between two runs is the violation itself, and it need not
+        // show again on a third and fourth run)
+        if prop != "C19" && v.case["steps"].as_array().map_or(false, |a| !a.is_empty()) {
             let h = history_from_json(&v.case);
             let naming = if prop == "C20" { Naming::Reuse } else { Naming::Unique };
             let oracle = oracle_for(&prop, naming, true);
